@@ -2,6 +2,7 @@
 #![allow(dead_code)]
 mod driver;
 mod fsx;
+mod io;
 mod prng;
 mod rt;
 mod scenarios;
